@@ -30,6 +30,9 @@ def build(repo):
         u.harness('bitpack::verif_bitpack::l%d::delta_bitpacked_roundtrip' % n, 'bitpack::DeltaBitPacked::roundtrip[len=%d]' % n, kind='bounded', bound=b, tier=t, timeout=900)
         if n == 0:   # lengths >= 1 did not finish within 15 min (measured): dropped, listed as not covered
             u.harness('bitpack::verif_bitpack::l%d::bytes_roundtrip' % n, 'bitpack::BitPackedInts::to_bytes/from_bytes::roundtrip[len=%d]' % n, kind='bounded', bound=b, tier=t, timeout=300)
+    for n in range(2):   # lengths >= 2 and the iterator/signed harness timed out (> 300 s): dropped per the < 120 s rule, listed as not covered
+        b = 'input length == %d (values symbolic)' % n
+        u.harness('runlength::verif_rle::l%d::bytes_roundtrip' % n, 'runlength::RunLengthEncoding::to_bytes/from_bytes::roundtrip[len=%d]' % n, kind='bounded', bound=b, tier='quick', timeout=300)
     for n in (0, 1, 3, 65):
         t = 'quick' if n <= 3 else 'thorough'
         b = 'length == %d (bits symbolic)' % n
@@ -40,6 +43,6 @@ def build(repo):
                    ('BitVector::{from_bools, filled, not, push, get, to_bytes, from_bytes}', 'crates/grafeo-core/src/storage/bitvec.rs'),
                    ('zigzag_encode, zigzag_decode (second copy)', 'crates/grafeo-core/src/storage/runlength.rs')]
     u.not_covered = ['BitPackedInts::{to_bytes, from_bytes} for non-empty blocks (Kani harness timed out at length 1: dropped per the < 120 s rule)', 'DictionaryEncoding (hash map of strings), CodecSelector, compressed property columns, adjacency cold chunks, succinct structures (feature off), epoch_store (adapter chains / hash maps / floats)',
-                     'RunLengthEncoding::{to_bytes, from_bytes} (io::Cursor), SignedRunLengthEncoding']
+                     'RunLengthEncoding::{to_bytes, from_bytes, from_runs} beyond length 1, RunLengthIterator::next, SignedRunLengthEncoding (Kani harnesses timed out: dropped)']
     u.assumptions = ['bounded harnesses (one per concrete input length <= 3 or 4) are stand-ins for the iterator-adapter encoders and byte serialisers; they are reported separately and never counted as proved']
     return u
